@@ -110,7 +110,7 @@ pub fn body<D: Dd + Send, C: Cache<State = St> + Send + Sync + Default>(c: &ParC
         }
     }
     if c.mode != "cutoff" {
-        for tag in ["C03", "C09", "C14"] {
+        for tag in ["C03", "C09", "C14", "C15"] {
             if want(tag) && (tag != "C14" || c.mode == "warm") {
                 if !o.exact {
                     panic!("SYMX-LABEL[{}:is-exact] uninterrupted parallel maximize() does not report is_exact", tag);
